@@ -37,6 +37,9 @@ pub const MUTATORS: &[(&str, &str)] = &[
     ("var", ". ./mut.sh"),
     ("var", "getopts ab opt -a"),
     ("var", "for v1 in l1 l2; do :; done"),
+    ("var", "/bin/echo ${v9:=expanded-for-an-external}"),
+    ("var", "/bin/true $((v5++)) ${nv:=x}"),
+    ("var", "echo $((v5 += 2)) ${v9:=z}"),
     ("func", "f1() { echo redefined; }"),
     ("func", "unset -f f2"),
     ("func", "newf() { :; }"),
@@ -85,7 +88,7 @@ pub const MUTATORS: &[(&str, &str)] = &[
 /// process-wide state (known finding: not part of the cloned shell)
 pub const PROCESS_WIDE: &[(&str, &str)] = &[("umask", "umask 077"), ("umask", "umask 027"), ("ulimit", "ulimit -n 100"), ("ulimit", "ulimit -c 0"), ("ulimit", "ulimit -f 1000")];
 
-pub const CONTEXTS: &[&str] = &["paren", "cmdsubst", "backquote", "pipe-first", "pipe-middle", "background", "procsub-in", "procsub-out", "coproc", "func-in-paren", "nested", "loop-paren", "loop-cmdsubst", "loop-pipe", "loop-background", "nested-loops-paren"];
+pub const CONTEXTS: &[&str] = &["paren", "cmdsubst", "backquote", "pipe-first", "pipe-middle", "background", "procsub-in", "procsub-out", "coproc", "func-in-paren", "nested", "loop-paren", "loop-cmdsubst", "loop-pipe", "loop-background", "nested-loops-paren", "pipe-stages", "background-each"];
 
 #[derive(Clone, Debug, Serialize, Deserialize)]
 pub struct Case {
@@ -142,6 +145,9 @@ impl Case {
             "procsub-out" => format!("echo out > >( {m}; cat >/dev/null ) 2>/dev/null; sleep 0.05"),
             "coproc" => format!("coproc {{ {m}; }} >/dev/null 2>&1; {busy}wait"),
             "func-in-paren" => format!("sf() {{ {m}; }}; ( sf ) >/dev/null 2>&1; unset -f sf"),
+            // every mutator is a pipeline stage (or a background command) of its own, not wrapped in a group
+            "pipe-stages" => format!("{} 2>/dev/null | cat >/dev/null", self.muts.iter().map(|m| if m.contains(';') { format!("{{ {m}; }}") } else { m.clone() }).collect::<Vec<_>>().join(" 2>/dev/null | ")),
+            "background-each" => format!("{} wait", self.muts.iter().map(|m| if m.contains(';') { format!("{{ {m}; }} >/dev/null 2>&1 &") } else { format!("{m} >/dev/null 2>&1 &") }).collect::<Vec<_>>().join(" ")),
             "loop-paren" => format!("for q in 1 2; do ( {m} ) >/dev/null 2>&1; echo \"after:$q\"; done"),
             "loop-cmdsubst" => format!("for q in 1 2; do : \"$( {m} )\" 2>/dev/null; echo \"after:$q\"; done"),
             "loop-pipe" => format!("q=0; while (( q < 2 )); do q=$((q+1)); {{ {m}; }} 2>/dev/null | cat >/dev/null; echo \"after:$q\"; done"),
